@@ -465,7 +465,7 @@ class C05:
     def run_shard(self, sh, rec):
         self._setup()
         rng = random.Random(f"{sh['seed']}/C05/{sh['index']}")
-        for i in range(sh["n"]):
+        for i in harness.budgeted(range(sh["n"]), rec):
             if sh["kind"] == "cli":
                 case = {"kind": "cli", "rseed": f"{sh['seed']}/C05/cli/{i}"}
             else:
